@@ -260,6 +260,21 @@ def report(x):
 def total(x):
     REC.hit("total", x)
     return report(x) + %(const)d
+
+import %(pkg)s.other as cfg
+import %(pkg)s.other2 as cfg2
+
+@m.memento_function
+def viaattr(x):
+    REC.hit("viaattr", x)
+    return cfg.scale(x) + cfg.FACTOR
+
+@m.memento_function
+def twice(x):
+    REC.hit("twice", x)
+    if x < -1000:
+        return cfg.later(x) + cfg2.later(x) + later(x)
+    return x
 """
 REBIND_OTHER = """FACTOR = %(f_other)d
 
@@ -269,7 +284,19 @@ def scale(x):
 def scale3(x):
     return x %(op)s FACTOR %(op)s 3
 """
+REBIND_OTHER2 = """FACTOR = %(f_other)d + 10
+
+def scale(x):
+    return x %(op)s FACTOR %(op)s 7
+
+def scale3(x):
+    return x %(op)s FACTOR %(op)s 4
+"""
 REBINDS = {  # statement executed in the main module, after versions were asked once
+    "module_alias": "import %(pkg)s.other2 as cfg",   # the module alias through which a helper and a variable are reached
+    "late_attribute_of_the_second_module": "cfg2.later = cfg2.scale3",  # one of three undefined symbols of one name
+    "late_attribute_of_the_first_module": "cfg.later = cfg.scale3",
+    "late_global_of_the_same_name": "later = scale2",
     "same_code_other_globals": "from %(pkg)s.other import scale",           # byte-identical code, another FACTOR
     "other_code": "from %(pkg)s.other import scale3 as scale",
     "own_sibling": "scale = scale2",
@@ -283,7 +310,7 @@ def rebind_child(arg):
     sys.path.insert(0, root)
     env.set_env(os.path.join(root, "env"), default_storage=env.mem_backend())
     main = importlib.import_module(pkg + ".main")
-    res = {"before": {n: getattr(main, n).version() for n in ("report", "total")}}
+    res = {"before": {n: getattr(main, n).version() for n in ("report", "total", "viaattr", "twice")}}
     if arg.get("live"):
         if arg.get("call_first"):
             main.total(3)
@@ -291,7 +318,7 @@ def rebind_child(arg):
         name = "<vf13-rebind>"
         linecache.cache[name] = (len(src), None, src.splitlines(True), name)
         exec(compile(src, name, "exec"), main.__dict__)
-    for n in (["total", "report"] if arg.get("order") else ["report", "total"]):
+    for n in (["twice", "total", "viaattr", "report"] if arg.get("order") else ["report", "viaattr", "total", "twice"]):
         try:
             res.setdefault("after", {})[n] = getattr(main, n).version()
         except Exception as e:
@@ -310,7 +337,7 @@ def run_rebind(case):
     how = list(REBINDS)[case["idx"] % len(REBINDS)]
     pkg = "vp13r_%d_%d" % (case["seed"], case["idx"])
     params = {"f_main": rng.randint(2, 5), "f_other": rng.randint(6, 9), "op": rng.choice(["*", "+", "-"]), "const": rng.randint(1, 9),
-              "import_other": ""}
+              "import_other": "", "pkg": pkg}
     with env.Scratch() as sc:
         def write(root, tail):
             d = os.path.join(root, pkg)
@@ -318,6 +345,8 @@ def run_rebind(case):
             open(os.path.join(d, "__init__.py"), "w").close()
             with open(os.path.join(d, "other.py"), "w") as f:
                 f.write(REBIND_OTHER % params)
+            with open(os.path.join(d, "other2.py"), "w") as f:
+                f.write(REBIND_OTHER2 % params)
             with open(os.path.join(d, "main.py"), "w") as f:
                 f.write(REBIND_MAIN % params + tail)
 
